@@ -343,6 +343,8 @@ type atStmtOpts struct {
 	// multi-row upsert: the first value group is a new row with NULL in the unique index's column, the second one finds
 	// an existing row through that index
 	nullThenUqHit bool
+	// INSERT: every value of the VALUES list is, independently, a literal or a bound argument
+	mixedArgs bool
 }
 
 // atGenUpdate: UPDATE t SET <1..2 value columns> WHERE ...
@@ -505,7 +507,14 @@ func atGenInsert(r *vc.Rand, t *atTable, o atStmtOpts, nrows int, seq *int) atSt
 			} else {
 				v = atColKinds[t.Kinds[ci]].gen(r)
 			}
-			if o.params {
+			asParam := o.params
+			if o.mixedArgs {
+				asParam = r.Bool()
+				if _, isStr := v.(string); isStr && !asParam {
+					asParam = true // string literals in images are finding C16-K1's neighbourhood: keep them bound
+				}
+			}
+			if asParam {
 				ph = append(ph, "?")
 				args = append(args, tvOf(v))
 			} else {
@@ -519,7 +528,7 @@ func atGenInsert(r *vc.Rand, t *atTable, o atStmtOpts, nrows int, seq *int) atSt
 		rc = "many"
 	}
 	return atStmt{Kind: "insert", Table: t.Name, SQL: fmt.Sprintf("insert into %s (%s) values %s", t.Name, strings.Join(cols, ", "), strings.Join(groups, ", ")), Args: args,
-		Feat: map[string]string{"stmt": "insert", "params": fmt.Sprint(o.params), "rows": rc, "insert_cols": colOrder}}
+		Feat: map[string]string{"stmt": "insert", "params": fmt.Sprint(o.params), "rows": rc, "insert_cols": colOrder, "insert_args": map[bool]string{true: "mixed", false: "uniform"}[o.mixedArgs]}}
 }
 
 // atGenMulti: two or three UPDATE / DELETE statements on one table sent as one multi-statement text with bound arguments.
